@@ -40,7 +40,29 @@ package ast
 //@ ghost var $loc array[int]RV           // fact store addressed through reflect (T-REFLECT): location id -> value
 // what a rule action may write: memo fields, facts, the Retracted flags (Retract), completion, data-context bookkeeping.
 // T-USER: user methods called from actions do not reach into other engine state.
-//@ modset actions = @memo, $loc, RuleEntry.Retracted, $complete, DataContext.complete, DataContext.retracted, DataContext.variableChangeCount, DataContext.ruleEntry, map[string]model.ValueNode
+//@ ghost var $setN int                  // log of ValueNode setter calls (C04): how many, and the last one's arguments
+//@ ghost var $setKind int               //   1 field, 2 array element, 3 map entry
+//@ ghost var $setNode Ref
+//@ ghost var $setField string
+//@ ghost var $setIndex int
+//@ ghost var $setSel RV
+//@ ghost var $setVal RV
+//@ ghost var $addN int                  // log of IDataContext.Add calls
+//@ ghost var $addKey string
+//@ ghost var $addObj Ref
+//@ ghost var $asgN int                  // log of Variable.Assign calls
+//@ ghost var $asgVar *Variable
+//@ ghost var $asgVal RV
+//@ ghost var $asgExprSnap array[Ref]RV  // $exprRes / $varRes as they were when the last Assign started
+//@ ghost var $asgVarSnap array[Ref]RV
+//@ ghost var $exprRes array[Ref]RV      // last successful result of Expression.Evaluate, per node
+//@ ghost var $varRes array[Ref]RV       // last successful result of Variable.Evaluate, per node
+//@ ghost var $thenN int                 // log of executed then-statements, in order
+//@ ghost var $thenSeq array[int]Ref
+//@ modset setlog = $setN, $setKind, $setNode, $setField, $setIndex, $setSel, $setVal, $addN, $addKey, $addObj, $addFailed
+//@ modset actlog = @setlog, $asgN, $asgVar, $asgVal, $asgExprSnap, $asgVarSnap, $exprRes, $varRes
+//@ modset thenlog = $thenN, $thenSeq
+//@ modset actions = @memo, @actlog, $loc, RuleEntry.Retracted, $complete, DataContext.complete, DataContext.retracted, DataContext.variableChangeCount, DataContext.ruleEntry, map[string]model.ValueNode
 
 //@ macro func active(re *RuleEntry) bool { return !re.Retracted && !re.Deleted }
 //@ extern pure func ctxErrRoot(ctx Ref) Ref
@@ -76,6 +98,11 @@ package ast
 //@ extern func (d IDataContext) Add(key, obj) (err)
 //@   nopanic
 //@   ghost_exit $addFailed = err != nil
+//@   ghost_exit $addN = $addN + 1
+//@   ghost_exit $addKey = key
+//@   ghost_exit $addObj = obj
+//@ extern func (d IDataContext) IncrementVariableChangeCount() ()
+//@   nopanic
 //@ extern func (d IDataContext) SetRuleEntry(re) ()
 //@   nopanic
 //@ extern func (d IDataContext) IsComplete() (r)
@@ -137,17 +164,20 @@ package ast
 // ---------------------------------------------------------------------------------------------------------
 // RuleEntry.Evaluate / Execute: the engine-facing contracts (C01, C10, C14, C15)
 // ---------------------------------------------------------------------------------------------------------
-// ASSUMED for now (extern = not yet checked against its body): evaluation writes memo fields only
+// ASSUMED for now (extern = not yet checked against its body): evaluation writes memo fields only, never forgets
 //@ extern func (e *Expression) Evaluate(dataContext, memory) (val, err)
-//@   modifies @memo
+//@   modifies @memo, $exprRes
+//@   ensures forall x *Expression :: old(x.Evaluated) ==> x.Evaluated
+//@   ensures forall a *ExpressionAtom :: old(a.Evaluated) ==> a.Evaluated
+//@   ensures err == nil ==> $exprRes[e] == val
 //@ func (e *WhenScope) Evaluate(dataContext, memory) (val, err)
-//@   modifies @memo
+//@   modifies @memo, $exprRes
 
 //@ func (e *RuleEntry) Evaluate(ctx, dataContext, memory) (can, err)
 //@   serves C01 C10 C14 C15
 //@   requires e != nil && ctx != nil
 //@   nopanic
-//@   modifies @memo, @ctxghost
+//@   modifies @memo, $exprRes, @ctxghost
 //@   ensures err != nil ==> !can
 //@   ensures old(e.Retracted) ==> !can
 //@   ensures err != nil ==> err_mentions(err, e.RuleName)
@@ -162,16 +192,9 @@ package ast
 //@   ghost_exit $sinceNilCheck = $sinceNilCheck + 1
 //@   ghost_exit $sinceExec = $sinceExec + 1
 
-// ASSUMED for now (extern): the action list writes only what actions may write; Retract/Complete are monotone
-//@ extern func (e *ThenExpressionList) Execute(dataContext, memory) (err)
-//@   modifies @actions
-//@   ensures forall re *RuleEntry :: old(re.Retracted) ==> re.Retracted
-//@   ensures forall d Ref :: old($complete[d]) ==> $complete[d]
-//@   panic_ensures forall re *RuleEntry :: old(re.Retracted) ==> re.Retracted
-//@   panic_ensures forall d Ref :: old($complete[d]) ==> $complete[d]
 //@ func (e *ThenScope) Execute(dataContext, memory) (err)
 //@   requires $sinceNilCheck == 0
-//@   modifies @actions
+//@   modifies @actions, @thenlog
 //@   ensures forall re *RuleEntry :: old(re.Retracted) ==> re.Retracted
 //@   ensures forall d Ref :: old($complete[d]) ==> $complete[d]
 //@   panic_ensures forall re *RuleEntry :: old(re.Retracted) ==> re.Retracted
@@ -181,7 +204,7 @@ package ast
 //@   serves C14 C15 C10
 //@   requires e != nil && ctx != nil
 //@   nopanic
-//@   modifies @actions, @ctxghost
+//@   modifies @actions, @thenlog, @ctxghost
 //@   ensures forall re *RuleEntry :: old(re.Retracted) ==> re.Retracted
 //@   ensures forall d Ref :: old($complete[d]) ==> $complete[d]
 //@   ensures old($cancelled) ==> err != nil && wrapsCtx(err, ctx)
@@ -253,3 +276,154 @@ package ast
 // distinct (name, version) pairs must not influence one another: the key must be injective. It is not when a name or
 // version contains ':' (known finding F13; the format is visible through the exported Library map).
 //@ lemma[C16] kbkey_injective: forall n1 string, v1 string, n2 string, v2 string :: n1 + ":" + v1 == n2 + ":" + v2 ==> n1 == n2 && v1 == v2
+
+//@ macro func libKB(lib *KnowledgeLibrary, name string, version string) *KnowledgeBase { return lib.Library[name + ":" + version] }
+//@ func (lib *KnowledgeLibrary) RemoveRuleEntry(ruleName, name, version) ()
+//@   serves C16
+//@   requires lib != nil
+//@   requires has(lib.Library, name + ":" + version) ==> libKB(lib, name, version) != nil && KBInv(libKB(lib, name, version))
+//@   nopanic
+//@   modifies map[string]*RuleEntry, RuleEntry.RuleName, RuleEntry.Deleted
+//@   ensures[C16] marked: has(lib.Library, name + ":" + version) && old(has(libKB(lib, name, version).RuleEntries, ruleName)) ==> old(libKB(lib, name, version).RuleEntries[ruleName]).Deleted && !has(libKB(lib, name, version).RuleEntries, ruleName)
+//@   ensures[C16] otherskept: has(lib.Library, name + ":" + version) ==> (forall k string :: k != ruleName && old(has(libKB(lib, name, version).RuleEntries, k)) ==> has(libKB(lib, name, version).RuleEntries, k) && libKB(lib, name, version).RuleEntries[k] == old(libKB(lib, name, version).RuleEntries[k]))
+//@   ensures[C16] inv: has(lib.Library, name + ":" + version) ==> KBInv(libKB(lib, name, version))
+//@   ensures[C16] sticky: forall re *RuleEntry :: old(re.Deleted) ==> re.Deleted
+//@   ensures[C16] otherkbs: forall m map[string]*RuleEntry, k string :: !(has(lib.Library, name + ":" + version) && m == libKB(lib, name, version).RuleEntries) ==> has(m, k) == old(has(m, k)) && m[k] == old(m[k])
+//@   ensures[C16] unknownkb: !has(lib.Library, name + ":" + version) ==> (forall re *RuleEntry :: re.RuleName == old(re.RuleName) && re.Deleted == old(re.Deleted))
+
+
+// ---------------------------------------------------------------------------------------------------------
+// C04 / C01 / C13: the action layer. ValueNode is an interface (facts are reached through reflection or JSON):
+// its setters are T-USER/T-REFLECT externs that record WHICH setter was invoked with WHICH arguments.
+// ---------------------------------------------------------------------------------------------------------
+//@ extern pure func rv_int(v RV) int
+//@ extern pure func boxedRV(obj Ref) RV
+//@ extern func pkg.ValueToInterface(valueToConvert) (r)
+//@   ensures boxedRV(r) == valueToConvert
+//@ extern func (n model.ValueNode) SetObjectValueByField(field, newValue) (err)
+//@   modifies $loc
+//@   ensures err != nil ==> $loc == old($loc)
+//@   ghost_exit $setN = $setN + 1
+//@   ghost_exit $setKind = 1
+//@   ghost_exit $setNode = n
+//@   ghost_exit $setField = field
+//@   ghost_exit $setVal = newValue
+//@ extern func (n model.ValueNode) SetArrayValueAt(index, value) (err)
+//@   modifies $loc
+//@   ensures err != nil ==> $loc == old($loc)
+//@   ghost_exit $setN = $setN + 1
+//@   ghost_exit $setKind = 2
+//@   ghost_exit $setNode = n
+//@   ghost_exit $setIndex = index
+//@   ghost_exit $setVal = value
+//@ extern func (n model.ValueNode) SetMapValueAt(index, newValue) (err)
+//@   modifies $loc
+//@   ensures err != nil ==> $loc == old($loc)
+//@   ghost_exit $setN = $setN + 1
+//@   ghost_exit $setKind = 3
+//@   ghost_exit $setNode = n
+//@   ghost_exit $setSel = index
+//@   ghost_exit $setVal = newValue
+//@ extern func (n model.ValueNode) IsArray() (r)
+//@   isfunc
+//@   nopanic
+//@ extern func (n model.ValueNode) IsMap() (r)
+//@   isfunc
+//@   nopanic
+
+// ASSUMED for now (extern): evaluation of variables / selectors / atoms; frames and monotonicity only
+//@ extern func (e *Variable) Evaluate(dataContext, memory) (val, err)
+//@   modifies @memo, $varRes
+//@   ensures forall x *Expression :: old(x.Evaluated) ==> x.Evaluated
+//@   ensures forall a *ExpressionAtom :: old(a.Evaluated) ==> a.Evaluated
+//@   ensures err == nil ==> $varRes[e] == val
+//@   ensures forall v *Variable :: v != e && !(err == nil) ==> true
+//@ extern func (e *ArrayMapSelector) Evaluate(dataContext, memory) (val, err)
+//@   modifies @memo, $exprRes
+//@   ensures forall x *Expression :: old(x.Evaluated) ==> x.Evaluated
+//@   ensures forall a *ExpressionAtom :: old(a.Evaluated) ==> a.Evaluated
+//@   ensures err == nil ==> e.Value == val
+//@ extern func (e *ExpressionAtom) Evaluate(dataContext, memory) (val, err)
+//@   modifies @actions
+//@   ensures forall re *RuleEntry :: old(re.Retracted) ==> re.Retracted
+//@   ensures forall d Ref :: old($complete[d]) ==> $complete[d]
+//@   panic_ensures forall re *RuleEntry :: old(re.Retracted) ==> re.Retracted
+//@   panic_ensures forall d Ref :: old($complete[d]) ==> $complete[d]
+
+// idx[v]: the expressions / atoms the working memory files under variable v
+//@ macro func inExprIdx(m *WorkingMemory, v *Variable, x *Expression) bool { return has(m.expressionVariableMap, v) && (exists k int :: 0 <= k && k < len(m.expressionVariableMap[v]) && m.expressionVariableMap[v][k] == x) }
+//@ macro func inAtomIdx(m *WorkingMemory, v *Variable, a *ExpressionAtom) bool { return has(m.expressionAtomVariableMap, v) && (exists k int :: 0 <= k && k < len(m.expressionAtomVariableMap[v]) && m.expressionAtomVariableMap[v][k] == a) }
+
+// I2: ResetVariable forgets exactly idx[v]
+//@ func (workingMem *WorkingMemory) ResetVariable(variable) (reseted)
+//@   serves C01 C02 C13
+//@   modifies Expression.Evaluated, ExpressionAtom.Evaluated
+//@   ensures[C01,C02] exprs: forall x *Expression :: inExprIdx(workingMem, variable, x) ==> !x.Evaluated
+//@   ensures[C01,C02] atoms: forall a *ExpressionAtom :: inAtomIdx(workingMem, variable, a) ==> !a.Evaluated
+//@   ensures[C13] onlyexprs: forall x *Expression :: !inExprIdx(workingMem, variable, x) ==> x.Evaluated == old(x.Evaluated)
+//@   ensures[C13] onlyatoms: forall a *ExpressionAtom :: !inAtomIdx(workingMem, variable, a) ==> a.Evaluated == old(a.Evaluated)
+//@   invariant@1 forall k int :: 0 <= k && k < $i ==> !arr[k].Evaluated
+//@   invariant@1 forall x *Expression :: !(exists k int :: 0 <= k && k < $i && arr[k] == x) ==> x.Evaluated == old(x.Evaluated)
+//@   invariant@2 forall k int :: 0 <= k && k < $i ==> !arr[k].Evaluated
+//@   invariant@2 forall a *ExpressionAtom :: !(exists k int :: 0 <= k && k < $i && arr[k] == a) ==> a.Evaluated == old(a.Evaluated)
+
+// I3 + C04: a successful assignment writes exactly the addressed location with exactly the given value, through the setter
+// of the addressed shape, and forgets every expression / atom filed under the assigned variable (and nothing else)
+//@ func (e *Variable) Assign(newVal, dataContext, memory) (err)
+//@   serves C01 C02 C04 C13
+//@   modifies @memo, @setlog, $loc, $varRes, $exprRes
+//@   ghost_entry $asgN = $asgN + 1
+//@   ghost_entry $asgVar = e
+//@   ghost_entry $asgVal = newVal
+//@   ghost_entry $asgExprSnap = $exprRes
+//@   ghost_entry $asgVarSnap = $varRes
+//@   ensures[C01,C02] invalidates: err == nil ==> (forall x *Expression :: inExprIdx(memory, e, x) ==> !x.Evaluated) && (forall a *ExpressionAtom :: inAtomIdx(memory, e, a) ==> !a.Evaluated)
+//@   ensures[C13] nothingelse: (forall x *Expression :: old(x.Evaluated) && !inExprIdx(memory, e, x) ==> x.Evaluated) && (forall a *ExpressionAtom :: old(a.Evaluated) && !inAtomIdx(memory, e, a) ==> a.Evaluated)
+//@   ensures[C04] toplevel: len(e.Name) > 0 && e.Variable == nil && err == nil ==> $addN == old($addN) + 1 && $addKey == e.Name && boxedRV($addObj) == newVal && $setN == old($setN)
+//@   ensures[C04] field: e.Variable != nil && len(e.Name) > 0 && err == nil ==> $setN == old($setN) + 1 && $setKind == 1 && $setNode == e.Variable.ValueNode && $setField == e.Name && $setVal == newVal && $addN == old($addN)
+//@   ensures[C04] element: e.Variable != nil && len(e.Name) == 0 && err == nil ==> $setN == old($setN) + 1 && $setNode == e.Variable.ValueNode && $setVal == newVal && $addN == old($addN)
+//@        && (($setKind == 2 && $setIndex == rv_int(e.ArrayMapSelector.Value)) || ($setKind == 3 && $setSel == e.ArrayMapSelector.Value))
+//@   ensures[C04] atmostone: $setN + $addN <= old($setN) + old($addN) + 1
+//@   ensures[C04] erroruntouched: err != nil ==> $loc == old($loc)
+
+// the five assignment forms: right-hand side first, then (for compound forms) the variable's current value, combined by
+// the operator the flag names, then exactly one Assign of that value to this statement's variable
+//@ extern pure func fn_EvaluateAddition_0(l RV, r RV) RV
+//@ extern pure func fn_EvaluateSubtraction_0(l RV, r RV) RV
+//@ extern pure func fn_EvaluateMultiplication_0(l RV, r RV) RV
+//@ extern pure func fn_EvaluateDivision_0(l RV, r RV) RV
+//@ func (e *Assignment) Execute(dataContext, memory) (err)
+//@   serves C04
+//@   modifies @memo, @setlog, $loc, $varRes, $exprRes, $asgN, $asgVar, $asgVal, $asgExprSnap, $asgVarSnap
+//@   ensures[C04] assign: err == nil && e.IsAssign ==> $asgN == old($asgN) + 1 && $asgVar == e.Variable && $asgVal == $asgExprSnap[e.Expression]
+//@   ensures[C04] plus: err == nil && !e.IsAssign && e.IsPlusAssign ==> $asgN == old($asgN) + 1 && $asgVar == e.Variable && $asgVal == fn_EvaluateAddition_0($asgVarSnap[e.Variable], $asgExprSnap[e.Expression])
+//@   ensures[C04] minus: err == nil && !e.IsAssign && !e.IsPlusAssign && e.IsMinusAssign ==> $asgN == old($asgN) + 1 && $asgVar == e.Variable && $asgVal == fn_EvaluateSubtraction_0($asgVarSnap[e.Variable], $asgExprSnap[e.Expression])
+//@   ensures[C04] mul: err == nil && !e.IsAssign && !e.IsPlusAssign && !e.IsMinusAssign && e.IsMulAssign ==> $asgN == old($asgN) + 1 && $asgVar == e.Variable && $asgVal == fn_EvaluateMultiplication_0($asgVarSnap[e.Variable], $asgExprSnap[e.Expression])
+//@   ensures[C04] div: err == nil && !e.IsAssign && !e.IsPlusAssign && !e.IsMinusAssign && !e.IsMulAssign && e.IsDivAssign ==> $asgN == old($asgN) + 1 && $asgVar == e.Variable && $asgVal == fn_EvaluateDivision_0($asgVarSnap[e.Variable], $asgExprSnap[e.Expression])
+//@   ensures[C04] atmostone: $asgN <= old($asgN) + 1
+//@   ensures[C04] failedearly: err != nil && $asgN == old($asgN) ==> $loc == old($loc)
+
+// statements of an action list run in textual order; the list stops at the first failing statement
+//@ func (e *ThenExpression) Execute(dataContext, memory) (err)
+//@   serves C04 C10
+//@   modifies @actions
+//@   ghost_entry $thenSeq = store($thenSeq, $thenN, e)
+//@   ghost_entry $thenN = $thenN + 1
+//@   ensures forall re *RuleEntry :: old(re.Retracted) ==> re.Retracted
+//@   ensures forall d Ref :: old($complete[d]) ==> $complete[d]
+//@   panic_ensures forall re *RuleEntry :: old(re.Retracted) ==> re.Retracted
+//@   panic_ensures forall d Ref :: old($complete[d]) ==> $complete[d]
+
+//@ func (e *ThenExpressionList) Execute(dataContext, memory) (err)
+//@   serves C04 C10 C14
+//@   modifies @actions, @thenlog
+//@   ensures[C04,C10] allinorder: err == nil ==> $thenN == old($thenN) + len(e.ThenExpressions) && (forall k int :: 0 <= k && k < len(e.ThenExpressions) ==> $thenSeq[old($thenN) + k] == e.ThenExpressions[k])
+//@   ensures[C04,C14] stopsatfirsterror: err != nil ==> old($thenN) < $thenN && $thenN <= old($thenN) + len(e.ThenExpressions) && (forall k int :: 0 <= k && k < $thenN - old($thenN) ==> $thenSeq[old($thenN) + k] == e.ThenExpressions[k])
+//@   ensures forall re *RuleEntry :: old(re.Retracted) ==> re.Retracted
+//@   ensures forall d Ref :: old($complete[d]) ==> $complete[d]
+//@   panic_ensures forall re *RuleEntry :: old(re.Retracted) ==> re.Retracted
+//@   panic_ensures forall d Ref :: old($complete[d]) ==> $complete[d]
+//@   invariant@1 $thenN == old($thenN) + $i
+//@   invariant@1 forall k int :: 0 <= k && k < $i ==> $thenSeq[old($thenN) + k] == e.ThenExpressions[k]
+//@   invariant@1 forall re *RuleEntry :: old(re.Retracted) ==> re.Retracted
+//@   invariant@1 forall d Ref :: old($complete[d]) ==> $complete[d]
